@@ -57,12 +57,42 @@ def history(seed, zero_vol=False, chunk=None):
         drifts[m] = drift
     if nm >= 2 and not zero_vol and rng.random() < 0.7:
         f.set_correlation(0, 1, rng.choice([0.5, -0.3, 0.9]))
+    # (a generator of its own: the histories drawn from rng stay what they were)
+    r2 = random.Random(seed ^ 0x5EED)
+    starts = [0] * nm
+    late = None
+    if r2.random() < 0.35:
+        # one more market in the generator that STARTS LATE (no Market object steps it): it holds its initial value up to its
+        # start, its start is a generation boundary for everybody
+        late = nm
+        s_at = r2.choice([1, 2, ch - 1, ch, ch + 1, 2 * ch, 150])
+        s_at = max(1, s_at)
+        f.add_market(market_id=late, initial=77.0, drift=0.0, volatility=0.0 if zero_vol else 0.01, start_at=s_at)
+        inits[late] = 77.0
+        starts.append(s_at)
+        if not zero_vol and r2.random() < 0.5:
+            f.set_correlation(0, late, 0.4)
     ev = []
     prev = _snapshot(f)
     level = {m: (0, inits[m]) for m in range(nm)}      # zero volatility: (time, value) the path continues from
     changed_init = set()
     nops = rng.choice([20, 40])
     for _ in range(nops):
+        if r2.random() < 0.1:
+            # a change that must be REFUSED (negative volatility): it raises and leaves the generator as it was - what is
+            # generated afterwards still follows the configured parameters
+            refused = False
+            try:
+                f.change_volatility(market_id=r2.randrange(nm), volatility=-0.02, time=max(0, mkts[0].get_time()))
+            except ValueError:
+                refused = True
+            except Exception:  # noqa: BLE001
+                pass
+            obs, cur = _obs(f, prev, inits)
+            e = {"k": "neg", "t": max(0, mkts[0].get_time()), "refused": refused}
+            e.update(obs)
+            ev.append(e)
+            prev = cur
         r = rng.random()
         now = mkts[0].get_time()
         e = None
@@ -124,7 +154,8 @@ def history(seed, zero_vol=False, chunk=None):
         e.update(obs)
         e["lvl"] = bool(lvl)
         e["out"] = out
-        e["init"] = bool(all(cur[m][0] == inits[m] for m in cur if m not in changed_init))
+        e["init"] = bool(all(cur[m][0] == inits[m] for m in cur if m not in changed_init)
+                         and (late is None or all(x == inits[late] for x in cur[late][:starts[late] + 1])))
         ev.append(e)
         prev = cur
         if out != "ok":
@@ -137,7 +168,7 @@ def history(seed, zero_vol=False, chunk=None):
                     want = v0 * math.exp(drifts[m] * (u - t0))
                     ok = ok and abs(cur[m][u] - want) <= 1e-9 * want
             ev.append({"k": "level", "lvl": bool(ok), "pos": True, "init": True, "chg": [], "out": "ok", "t": 0})
-    return {"mode": "hist", "chunk": int(ch), "ev": ev, "seed": seed, "zero_vol": zero_vol}
+    return {"mode": "hist", "chunk": int(ch), "ev": ev, "seed": seed, "zero_vol": zero_vol, "starts": starts}
 
 
 # ------------------------------------------------------------------------------------------------ algebraic probe
@@ -214,6 +245,15 @@ def ret_cases(tier, seed):
                     f.set_correlation(x, y, corr[i][j] / float(den * den))
         f._np_prng = _StubNp(zs)
         steps = len(zs) * 2
+        if len(out) % 3 == 0:
+            # a refused change (negative volatility) before anything is generated: the configured volatility stays in force
+            try:
+                f.change_volatility(market_id=ids[0], volatility=-(vols[0] + 1) / 64.0)
+                out.append({"c": "stat", "what": "negative-volatility-accepted", "ok": False})
+            except ValueError:
+                pass
+            except Exception as ex:  # noqa: BLE001
+                out.append({"c": "stat", "what": "refused-change-raised-" + type(ex).__name__, "ok": False})
         try:
             prices = {i: f.get_fundamental_prices(market_id=ids[i], times=range(steps + 1)) for i in range(k)}
         except Exception as ex:  # noqa: BLE001 - generation itself failed: judged as a failed case, not a harness error
